@@ -11,7 +11,7 @@ pub const RULE: &str = "cases = accepted connected graphs (G-phys: random spanni
 
 pub fn gen_case(t: &mut Tape, tier: Tier) -> Option<Phys> {
     let mo = if t.chance(0.3) { 1.0 / 64.0 } else { 0.15 };
-    gen::gen_phys(t, &PhysOpts { max_e: tier.pick(8, 9), max_l: 5, min_omega: mo, dmax: 6, max_ops: tier.pick(4, 6), profile: gen::MODERATE })
+    gen::gen_phys(t, &PhysOpts { max_e: tier.pick(8, 9), max_l: 8, min_omega: mo, dmax: 6, max_ops: tier.pick(4, 6), profile: gen::MODERATE })
 }
 
 pub fn assert_c08(c: &Phys, ev: &Eval, ctx: &mut Ctx) -> Result<(), Failure> {
@@ -38,7 +38,7 @@ pub fn assert_c08(c: &Phys, ev: &Eval, ctx: &mut Ctx) -> Result<(), Failure> {
         ctx.label("excluded:out-of-range");
         return Ok(());
     }
-    if ev.tau_u > 1e-6 {
+    if ev.tau_u > 1e-3 {
         ctx.label("excluded:ill-conditioned");
         return Ok(());
     }
